@@ -364,7 +364,6 @@ func (r *rwRT) ruleAllFiles(strict bool) {
 	}
 }
 
-
 // writtenRewriterFields: names of the fields of type rewriter that are stored to, or whose map is updated,
 // by any function of the package other than the constructor mkRewriter (resolved through SSA field addresses).
 func (r *rwRT) writtenRewriterFields() []string {
